@@ -1,9 +1,9 @@
-\* look-back validity windows: every combination of registration / read-only fields of 2 instances,
-\* every query time in any order, one update of any kind
+\* look-back validity windows: every combination of registration / read-only fields of 3 instances in 2 zones
+\* (zone-aware), sizes 0 and 1, every query time in any order
 CONSTANTS
   Inst = {1, 2, 3}
   Ident = {1}
-  Sizes = {1, 2}
+  Sizes = {0, 1}
   Lookbacks = {1}
   Times = {2, 3, 4, 5}
   Readers = {}
